@@ -18,6 +18,9 @@ type Seg struct {
 	Lo     *int   `json:"lo,omitempty"`
 	Hi     *int   `json:"hi,omitempty"`
 	Opt    bool   `json:"opt,omitempty"`
+	// Spell, if set, is a non-canonical decimal spelling of Index (or of Lo / Hi for
+	// slices: "lo:hi") with the same value, e.g. "010" for 10: selectors are decimal.
+	Spell string `json:"spell,omitempty"`
 }
 
 // Text renders the segment in selector syntax.
@@ -33,6 +36,9 @@ func (s Seg) Text() string {
 		}
 		return "." + s.Field + q
 	case "index":
+		if s.Spell != "" {
+			return "[" + s.Spell + "]" + q
+		}
 		return "[" + strconv.Itoa(s.Index) + "]" + q
 	case "slice":
 		lo, hi := "", ""
@@ -41,6 +47,9 @@ func (s Seg) Text() string {
 		}
 		if s.Hi != nil {
 			hi = strconv.Itoa(*s.Hi)
+		}
+		if s.Spell != "" {
+			return "[" + s.Spell + "]" + q
 		}
 		return "[" + lo + ":" + hi + "]" + q
 	case "iter":
